@@ -412,3 +412,5 @@ def _typed_rows(env, cfg):
                 _restore(tok1)
         finally:
             _restore(tok)
+
+META['explanation'] += ' The same input is evaluated again after the model changed (no caching); dispatch through both validator entry points: two bound methods of one model, Wrapper subclass with helper methods.'
